@@ -206,9 +206,32 @@ def g_hist(rng, role):
     return [{"op": rng.choice(HIST_OPS[r]), "sub": rng.randrange(1 << 30)} for _ in range(rng.choice([1, 1, 2, 3]))]
 
 
+def touch(ob, rng):
+    """read-only use of the obstacle before it is changed (whatever such reads memoise must not survive the change)"""
+    t0 = ob.initial_state.time_step if hasattr(ob, "initial_state") else 0
+    for t in range(t0 - 1, t0 + 8):
+        try:
+            ob.occupancy_at_time(t)
+            if hasattr(ob, "state_at_time"):
+                ob.state_at_time(t)
+        except Exception:  # noqa - judged by the queries of the case itself
+            pass
+    p = getattr(ob, "prediction", None)
+    if p is not None:
+        try:
+            list(p.occupancy_set)
+            p.occupancy_at_time_step(t0 + rng.randint(0, 4))
+            if hasattr(p, "trajectory"):
+                p.trajectory.state_at_time_step(t0 + rng.randint(0, 4))
+        except Exception:  # noqa
+            pass
+
+
 def apply_history(ob, hist, opts):
     for h in hist:
         rng = random.Random(h["sub"])
+        if random.Random(h["sub"] ^ 0x5A5A5A).random() < 0.6:
+            touch(ob, random.Random(h["sub"] ^ 0x3C3C3C))
         op, role = h["op"], role_of(ob)
         if op.startswith("update_initial_state"):
             # the obstacle was observed again: a new initial state (usually one step later, elsewhere than predicted)
